@@ -143,7 +143,7 @@ impl XorShift {
     }
 }
 
-pub fn run<W: Write>(lines: &[String], log: &mut W, threads: usize, rounds: usize, yseed: u64, probes: bool) {
+pub fn run<W: Write>(lines: &[String], log: &mut W, threads: usize, rounds: usize, yseed: u64, probes: bool, baseline_last: bool) {
     let split = lines.iter().position(|l| l.trim() == "PAR").expect("script has no PAR line");
     let mut m = Machine::new();
     // staging areas for the shared wNAF objects (must outlive the threads)
@@ -187,8 +187,9 @@ pub fn run<W: Write>(lines: &[String], log: &mut W, threads: usize, rounds: usiz
         .collect();
     let shared_regs = Arc::new(std::mem::take(&mut m.regs));
 
-    // (1) sequential baseline
-    {
+    // (1) sequential baseline — unless the threads are to be the FIRST users of the library in this process
+    // (`--baseline-last`: lazily initialised state is then first touched concurrently)
+    let baseline = |log: &mut W| {
         let mut bm = Machine::new();
         bm.shared = Some(shared_regs.clone());
         for (id, op, toks) in &ops {
@@ -196,6 +197,9 @@ pub fn run<W: Write>(lines: &[String], log: &mut W, threads: usize, rounds: usiz
             writeln!(log, "S {} {}", id, r).unwrap();
         }
         log.flush().unwrap();
+    };
+    if !baseline_last {
+        baseline(log);
     }
 
     // (2) threads
@@ -269,6 +273,9 @@ pub fn run<W: Write>(lines: &[String], log: &mut W, threads: usize, rounds: usiz
     }
     if probes {
         verif_probe::uninstall();
+    }
+    if baseline_last {
+        baseline(log);
     }
     writeln!(log, "END").unwrap();
 }
